@@ -377,6 +377,18 @@ func (Prop) Generate(r *fw.Rand, tier string) []fw.Case {
 		}
 		cases = append(cases, fw.Case{Ops: ops, Tags: []string{"wal"}})
 	}
+	// the reader's buffer while an entry is read whose header claims n bytes and of which p
+	// are there: around the chunk size, far beyond it, and the 4 GiB a torn header can spell
+	const chunk = 1 << 20
+	for i := 0; i < 6; i++ {
+		var ops []string
+		for j := 0; j < 12; j++ {
+			p := []int{0, 1, r.Intn(4096), chunk - 1, chunk, chunk + 1, r.Intn(3 * chunk), 2*chunk + r.Intn(chunk)}[r.Intn(8)]
+			n := []int{p, p + 1, p + r.Intn(chunk), p + chunk, p + chunk + 1, 4294967295, r.Intn(p + 1), 0}[r.Intn(8)]
+			ops = append(ops, fmt.Sprintf("walgrow %d %d", p, n))
+		}
+		cases = append(cases, fw.Case{Ops: ops, Tags: []string{"walgrow"}})
+	}
 	return cases
 }
 
@@ -655,6 +667,22 @@ func runOp(op string) (out string) {
 	case "zzd":
 		v, _ := strconv.ParseUint(f[1], 10, 64)
 		return fmt.Sprintf("ok %d", uint64(tsm1.ZigZagDecode(v)))
+	case "walgrow":
+		// the WAL reader's growing read of an entry claimed to be n bytes long from a reader
+		// holding p bytes: bytes read, capacity of the buffer, outcome
+		p, _ := strconv.Atoi(f[1])
+		n, _ := strconv.Atoi(f[2])
+		l, c, err := tsm1.VerifReadFullGrowing(&zeroReader{left: p}, n)
+		res := "full"
+		switch {
+		case err == io.EOF:
+			res = "eof"
+		case err == io.ErrUnexpectedEOF:
+			res = "short"
+		case err != nil:
+			res = "err"
+		}
+		return fmt.Sprintf("ok %d %d %s", l, c, res)
 	case "wal":
 		k, _ := strconv.Atoi(f[1])
 		seg := unhx(f[3])
@@ -672,6 +700,27 @@ func runOp(op string) (out string) {
 		return fmt.Sprintf("ok %d %d", n, r.Count())
 	}
 	return "bad-op"
+}
+
+// zeroReader delivers `left` zero bytes, a few at a time.
+type zeroReader struct{ left int }
+
+func (z *zeroReader) Read(b []byte) (int, error) {
+	if z.left == 0 {
+		return 0, io.EOF
+	}
+	n := len(b)
+	if n > z.left {
+		n = z.left
+	}
+	if n > 300000 {
+		n = 300000 // short reads
+	}
+	for i := 0; i < n; i++ {
+		b[i] = 0
+	}
+	z.left -= n
+	return n, nil
 }
 
 func (Prop) RunImpl(c fw.Case) []string {
@@ -695,6 +744,27 @@ func (Prop) Oracle(c fw.Case, out []string) fw.Verdict {
 			return fw.Verdict{OK: false, Why: op[:min(len(op), 200)] + " => " + o, Signature: "panic in " + f[0]}
 		}
 		switch f[0] {
+		case "walgrow":
+			// whatever the header claims, the buffer stays within twice the bytes that were
+			// there plus three chunks, and exactly min(n, p) bytes are read
+			p, _ := strconv.Atoi(f[1])
+			n, _ := strconv.Atoi(f[2])
+			of := strings.Fields(o)
+			if len(of) != 4 {
+				return fw.Verdict{OK: false, Why: op + " => " + o, Signature: "walgrow malformed"}
+			}
+			l, _ := strconv.Atoi(of[1])
+			c, _ := strconv.Atoi(of[2])
+			m := n
+			if p < m {
+				m = p
+			}
+			if l != m {
+				return fw.Verdict{OK: false, Why: fmt.Sprintf("%s read %d bytes, %d were to be read", op, l, m), Signature: "walgrow byte count"}
+			}
+			if c > 2*m+3*(1<<20) {
+				return fw.Verdict{OK: false, Why: fmt.Sprintf("%s: buffer of %d bytes for %d bytes present (claimed %d)", op, c, p, n), Signature: "WAL reader sizes its buffer by the claimed length"}
+			}
 		case "tenc", "ienc", "benc":
 			// the next op decodes exactly these bytes
 			if o == "err" {
